@@ -204,7 +204,7 @@ func init() {
 	vrt.RaceFilter = raceFilter
 	vrt.Register(&vrt.Prop{
 		ID: "C11", Level: "exploration",
-		Rule: "case = a pair of PRNG-generated operation scripts (1-400 typed sends: byte, uint16, uint32, data, string, label, size list; payload sizes around 0, 16, 64 KiB +-, 3x64 KiB, 1 MiB +-, 2.5 MiB; flushes at PRNG positions; a filler so fixed-width values straddle the write-buffer end; every payload embeds (direction, op index)) run in both directions at once over p2p.NewConn(tap) with read fragmentation from 1 byte to whole buffer, write delays and lazy copying, or one direction at a time over p2p.Pipe; the script ends with Close (no final Flush). " +
+		Rule: "case = a pair of PRNG-generated operation scripts (1-400 typed sends: byte, uint16, uint32, data, string, label, size list; payload sizes around 0, 16, 64 KiB +-, 3x64 KiB, 1 MiB +-, 2.5 MiB; flushes at PRNG positions; a filler so fixed-width values straddle the write-buffer end; every payload embeds (direction, op index)) run in both directions at once over p2p.NewConn(tap) with read fragmentation from 1 byte to whole buffer, write delays and lazy copying, or one direction at a time over p2p.Pipe; every eighth case drives each end from a sender and a receiver goroutine at once; the script ends with Close (no final Flush). " +
 			"Oracle: the received value sequence equals the sent one, and every byte slice ReceiveData returned is kept (not copied) and still equals the sent payload after all later receives; after Close the reader drains everything and then sees EOF; Stats.Sent / Stats.Recvd equal the bytes the tap accepted from / delivered to that side. Thorough runs under the race detector (reports with p2p frames are violations). Distinct = hash(scripts, transport mode).",
 		Assumptions: []string{"one goroutine per connection end issues sends and receives (as the protocol code does)", "behaviour after a transport error is not part of the statement"},
 		NumCases: func(t string) int {
@@ -252,8 +252,134 @@ func raceFilter(prop, report string) (string, string) {
 	return "", ""
 }
 
+// c11Split drives each end of a tap connection from two goroutines: one issues
+// that end's sends and flushes, the other the matching receives of the peer's
+// script - both directions of one Conn at the same time, as a full-duplex user
+// of the stream (a message pump next to a producer) works. The send and the
+// receive half of a Conn share no state they need to share; whatever one half
+// does must not disturb the bytes or the counters of the other.
+func c11Split(cs *vrt.Case, r *vrt.Rng) {
+	scripts := [2][]c11Op{c11Script(r, 0, true), c11Script(r, 1, true)}
+	link := tap.NewLink(r, false)
+	frag := r.Intn(5)
+	link.SetFrag(frag, []int{0, 10, 60}[r.Intn(3)], r.Bool())
+	conns := [2]*p2p.Conn{p2p.NewConn(link.A), p2p.NewConn(link.B)}
+	link.Watch(20*time.Second, 0)
+	desc := map[string]any{"transport": fmt.Sprintf("tap frag=%d, sender and receiver goroutine per end", frag), "ops": []int{len(scripts[0]), len(scripts[1])}}
+	cs.SetSample(desc)
+	type result struct {
+		mismatch string
+		err      error
+		pan      *vrt.PanicInfo
+	}
+	var res [4]result // 2*e: sender of end e, 2*e+1: receiver of end e
+	var wg sync.WaitGroup
+	flushAt := [2]map[int]bool{{}, {}}
+	for e := 0; e < 2; e++ {
+		for i := range scripts[e] {
+			if r.Intn(6) == 0 {
+				flushAt[e][i] = true
+			}
+		}
+	}
+	for e := 0; e < 2; e++ {
+		wg.Add(2)
+		go func(e int) { // sender
+			defer wg.Done()
+			res[2*e].pan = vrt.Guard(func() {
+				for i, op := range scripts[e] {
+					if err := c11Send(conns[e], e, i, op); err != nil {
+						res[2*e].err = fmt.Errorf("send op %d: %w", i, err)
+						return
+					}
+					if flushAt[e][i] {
+						if err := conns[e].Flush(); err != nil {
+							res[2*e].err = err
+							return
+						}
+					}
+				}
+				res[2*e].err = conns[e].Flush()
+			})
+		}(e)
+		go func(e int) { // receiver
+			defer wg.Done()
+			held := &c11Held{}
+			res[2*e+1].pan = vrt.Guard(func() {
+				for i, op := range scripts[1-e] {
+					m, err := c11Recv(conns[e], 1-e, i, op, held)
+					if err != nil {
+						res[2*e+1].err = fmt.Errorf("receive op %d: %w", i, err)
+						return
+					}
+					if m != "" {
+						res[2*e+1].mismatch = fmt.Sprintf("op %d of direction %d: %s", i, 1-e, m)
+						return
+					}
+				}
+				res[2*e+1].mismatch = held.recheck()
+			})
+			if res[2*e+1].err != nil || res[2*e+1].mismatch != "" || res[2*e+1].pan != nil {
+				link.Abort(fmt.Errorf("receiver gave up")) // do not leave the peer's sender blocked
+			}
+		}(e)
+	}
+	wg.Wait()
+	link.Stop()
+	cs.Count("split_sessions", 1)
+	for i, x := range res {
+		cs.Evals += int64(len(scripts[(i/2+i%2)%2]))
+		role := fmt.Sprintf("%s goroutine of endpoint %d", []string{"sender", "receiver"}[i%2], i/2)
+		switch {
+		case x.pan != nil && x.pan.InMPC:
+			cs.Violate("C11|panic|"+x.pan.Frame, "connection layer panicked ("+role+"): "+x.pan.Value, map[string]any{"case": desc, "stack": x.pan.Stack})
+			return
+		case x.pan != nil:
+			cs.Inconc("harness panic: " + x.pan.Value + "\n" + x.pan.Stack)
+			return
+		case x.mismatch != "":
+			cs.Violate("C11|value-mismatch", "received value differs from the sent one ("+role+"): "+x.mismatch, map[string]any{"case": desc})
+			return
+		}
+	}
+	for i, x := range res {
+		if x.err != nil {
+			key := "C11|error"
+			if link.Stalled() {
+				key = "C11|stalled"
+			}
+			cs.Violate(key, fmt.Sprintf("error-free transport, %s goroutine of endpoint %d failed: %v", []string{"sender", "receiver"}[i%2], i/2, x.err), map[string]any{"case": desc})
+			return
+		}
+	}
+	checks := []struct {
+		name string
+		got  uint64
+		want int64
+	}{
+		{"A.Stats.Sent", conns[0].Stats.Sent.Load(), link.Written(0)},
+		{"B.Stats.Sent", conns[1].Stats.Sent.Load(), link.Written(1)},
+		{"B.Stats.Recvd", conns[1].Stats.Recvd.Load(), link.Delivered(0)},
+		{"A.Stats.Recvd", conns[0].Stats.Recvd.Load(), link.Delivered(1)},
+	}
+	for _, c := range checks {
+		if int64(c.got) != c.want {
+			cs.Violate("C11|stats|"+strings.Split(c.name, ".")[2], fmt.Sprintf("%s = %d but the transport moved %d bytes", c.name, c.got, c.want), map[string]any{"case": desc})
+			return
+		}
+	}
+	go conns[0].Close()
+	go conns[1].Close()
+	cs.Key(fmt.Sprint(scripts[0]), fmt.Sprint(scripts[1]), "split")
+	cs.Seen("transports", "tap-split")
+}
+
 func runC11(cs *vrt.Case) {
 	r := cs.Rng
+	if cs.Idx%8 == 3 {
+		c11Split(cs, r)
+		return
+	}
 	usePipe := cs.Idx%6 == 5
 	small := usePipe || cs.Idx%3 == 0
 	scripts := [2][]c11Op{c11Script(r, 0, small), c11Script(r, 1, small)}
